@@ -25,7 +25,7 @@ GROUPS = {
     'bern': ['bernoulli', 'bernfrac', 'bernpoly', 'zeta_int', 'gamma', 'loggamma', 'psi', 'harmonic', 'polygamma', 'tan', 'loggamma_big',
              'eulerpoly', 'zeta', 'siegeltheta'],
     'gamma': ['gamma', 'gamma_big', 'gamma_int', 'loggamma', 'loggamma_big', 'rgamma', 'factorial', 'factorial_int', 'factorial_big',
-              'psi', 'beta', 'binomial', 'rf', 'gammaprod', 'superfac', 'fac2', 'binomial_int'],
+              'psi', 'beta', 'binomial', 'rf', 'gammaprod', 'superfac', 'fac2', 'binomial_int', 'gamma_vhi', 'gamma_vhi', 'rgamma_vhi'],
     'zeta': ['zeta', 'zeta_int', 'hurwitz', 'zeta_rs', 'altzeta', 'siegelz', 'primezeta', 'stieltjes', 'zetazero', 'grampoint',
              'riemannr', 'polylog', 'dirichlet', 'nzeros', 'backlunds'],
     'ints': ['factorial_big', 'fac2', 'fib_int', 'eulernum', 'eulernum_exact', 'stirling1', 'stirling2', 'stirling1_exact',
@@ -223,7 +223,8 @@ def _judge(res, mode, seed_base):
         def get_R():
             if actor == 'fp':
                 return None
-            return refs.pristine_eval(step, 2 * p + 64, mode=mode, setup=step.get('ref_setup'), seed_base=seed_base)
+            # high-precision reference: 2p+64 bits (p+200 is as good for judging p-bit values and cheaper for large p)
+            return refs.pristine_eval(step, min(2 * p + 64, p + 200), mode=mode, setup=step.get('ref_setup'), seed_base=seed_base)
         verdict, detail = compare.compare(h, f, get_R, pp, t, exact)
         bump('judged')
         bump(verdict)
@@ -246,7 +247,7 @@ class _Gen(object):
         self.rng = r = rng
         self.tier = tier
         self.nid = 0
-        self.maxcost = 2 if (tier == 'quick' or r.random() < 0.6) else 3
+        self.maxcost = 2 if r.random() < (0.9 if tier == 'quick' else 0.6) else 3
         names = list(GROUPS)
         self.groups = r.sample(names, r.choice([1, 1, 2, 3]))
         self.special = r.choice(['none', 'none', 'matrix', 'matrix', 'memoize', 'both'])
@@ -288,6 +289,10 @@ class _Gen(object):
     def pick_hist_prec(self, e):
         r = self.rng
         hi = min(self.hi, e.maxprec)
+        if e.key.endswith('_vhi'):
+            # above 1000 bits the gamma Taylor coefficients are cached at 1.2x the precision: pairs inside that window
+            base = r.choice([1100, 2000, 2600, 3000, 3000, 3080])
+            return min(e.maxprec, int(base * r.choice([1.0, 1.0, 1.15, 1.19, 1.2, 1.2, 1.205, 1.21])))
         if e.key.endswith('_hi') or ('elem' in self.groups and r.random() < 0.3 and e.maxprec >= 3000):
             return min(hi, r.choice(ELEM_PRECS) + r.randint(-2, 2))
         return pick_prec(r, hi)
